@@ -54,6 +54,17 @@ CLAIMED = {
              "covered by the grid-file oracle only (no table theorem); shared x-edge coincidence is C04's tolerance statement.",
         technique="Coq proof (case analysis + lia over all size vectors) on a translated model + translation validation + grid-file oracle",
         design="6/C08"),
+    "C09": dict(
+        text="Coq theorems over R about the spacing functions and branch guards REGENERATED from getSmoothMonotonicGridFunc: exact end values (all closed-form "
+             "branches; erf branches under brentq's post-condition), prescribed end gradients with vanishing second derivative (Coquelicot), strict monotonicity of the "
+             "cubic branches inside the code's own guard including its 1e-8 slack for both orderings, sign of the spacing in the erf branches, nesting under doubling of n, "
+             "coincidence with the linear function at the switch. Translation validated against the real function; the same properties, segment sharing, limits and dx "
+             "are checked on the implementation for every topology (incl. a perturbed connected double null) and on corpus grids.",
+        note="Trusted: Coq kernel + Reals/Coquelicot axioms; erf contract (erf 0 = 0, odd, derivative) and brentq post-condition as Section hypotheses; translator; the sici "
+             "(two-gradient decreasing) branch is oracle-only; trig-branch monotonicity proved only in the interior of its guard; binary64 plateaus of erf for extreme ratios are "
+             "refused loudly by make1dGrid and only counted.",
+        technique="Coq proof (field/nra/Coquelicot auto_derive) on a translated model + translation validation + implementation oracle",
+        design="6/C09"),
 }
 
 PENDING = ["C01", "C03", "C04", "C05", "C06", "C07", "C08", "C09", "C10", "C11", "C12", "C13", "C14", "C15", "C16", "C17", "C18", "C19", "C20"]
